@@ -69,18 +69,3 @@ Definition pinned_decls_slice : list string :=
 
 Definition ok_slice : Prop :=
   of_file fst "slice.go" InvSlice.inventory = pinned_slice /\ of_file (fun s => s) "slice.go" InvSlice.decls = pinned_decls_slice.
-
-Lemma C07_inventory_slice : InvSlice.files = pinned_files /\ ok_slice.
-Proof. unfold ok_slice; repeat split; vm_compute; reflexivity. Qed.
-
-Lemma C11_inventory_slice : InvSlice.files = pinned_files /\ ok_edit.
-Proof. unfold ok_edit; repeat split; vm_compute; reflexivity. Qed.
-
-Lemma C12_inventory_slice : InvSlice.files = pinned_files /\ ok_edit /\ ok_lis.
-Proof. unfold ok_edit, ok_lis; repeat split; vm_compute; reflexivity. Qed.
-
-Lemma C13_inventory_slice : InvSlice.files = pinned_files /\ ok_edit.
-Proof. unfold ok_edit; repeat split; vm_compute; reflexivity. Qed.
-
-Lemma C17_inventory_slice : InvSlice.files = pinned_files /\ ok_slice.
-Proof. unfold ok_slice; repeat split; vm_compute; reflexivity. Qed.
